@@ -78,6 +78,24 @@ theorem falsy_defaults_kept :
       .ok [(['a'], .c (.int 0)), (['b'], .c (.float ['0', '.', '0'])), (['c'], .c (.bool false)), (['d'], .c (.str []))] :=
   ⟨by decide, rfl⟩
 
+/-! ### today's spellings (outside `DIR`; tied to the code by the correspondence, pinned here on the regression's inputs) -/
+
+/-- `str | None` as `ast.parse` gives it (PEP 604: a `BinOp`) -/
+def strOrNone : TExpr := .binop (.name sStr) (.const .none)
+
+/-- **`needs_quoting` sees through a PEP 604 union** (`ast.walk` reaches the `Name` `str` below the `BinOp`), so a string
+    default of `mode: str | None` stays a string constant: `mode: str | None = 'auto'`, and `'first batch'` for
+    `label: int | str` — neither parsed as source (`= auto`) nor code-quoted.  Concrete instances, not a quantified
+    statement; the quantified tie for these spellings is the correspondence run. -/
+theorem pep604_str_default_kept :
+    needsQuoting strOrNone = true ∧
+    param2ast { name := ['m'], typ := some strOrNone, doc := [], default := some (.str ['a', 'u', 't', 'o']) } =
+      .ok (.annAssign ['m'] strOrNone (some (.c (.str ['a', 'u', 't', 'o'])))) ∧
+    param2ast { name := ['l'], typ := some (.binop (.name sInt) (.name sStr)), doc := [],
+                default := some (.str ['f', 'i', 'r', 's', 't', ' ', 'b', 'a', 't', 'c', 'h']) } =
+      .ok (.annAssign ['l'] (.binop (.name sInt) (.name sStr)) (some (.c (.str ['f', 'i', 'r', 's', 't', ' ', 'b', 'a', 't', 'c', 'h'])))) :=
+  ⟨rfl, rfl, rfl⟩
+
 /-! ## function -/
 
 /-- the clause as stated: the signature shows the described names, order and defaults -/
